@@ -154,3 +154,16 @@ for K in (2, 3, 4):
             QM(('C19',), 'sort.%s.K%d%s' % ('cs' if cs else 'ci', K, '.twice' if twice else ''), 'harness/sort.c', defs=['-DK=%d' % K, '-DCS=%d' % cs] + (['-DTWICE'] if twice else []), unwind=K + 1, link=['cJSON.c'],
                unwindset=ML(K + 3, 40) + ['sort_list:%d' % depth, 'strcmp.0:4', 'kcmp.0:4'], cost=K * K * (1 + twice), tiers=('quick', 'thorough') if (K == 2 or (K == 3 and not twice)) else ('thorough',),
                functions=['cJSONUtils_SortObject', 'cJSONUtils_SortObjectCaseSensitive', 'sort_object', 'sort_list', 'compare_strings'], timeout=1800, mem_gb=24)
+
+# ------------------------------------------------------------------ C15 JSON pointer
+PTRFN = ['cJSONUtils_GetPointerCaseSensitive', 'get_item_from_pointer', 'decode_array_index_from_pointer', 'compare_pointers', 'get_array_item', 'cJSONUtils_FindPointerFromObjectTo', 'encode_string_as_pointer', 'pointer_encoded_length']
+for K, P in ((2, 4), (2, 5), (3, 5), (2, 6)):
+    for shape in range(6):
+        QM(('C15',), 'ptr.resolve.K%dP%d.S%d' % (K, P, shape), 'harness/pointer.c', defs=['-DK=%d' % K, '-DP=%d' % P, '-DMODE=0', '-DSHAPE=%d' % shape], unwind=K + 2, link=['cJSON.c'],
+           unwindset=ML(K * K + K + 3, 50) + ['strcmp.0:4', 'get_item_from_pointer.0:%d' % (P + 2), 'get_item_from_pointer.2:%d' % (P + 2), 'decode_array_index_from_pointer.0:%d' % (P + 2),
+                                                'compare_pointers.0:4', 'ref_resolve.0:%d' % (P + 2), 'ref_resolve.1:%d' % (P + 2), 'ref_resolve.2:%d' % (P + 2), 'ref_resolve.3:%d' % (K + 2), 'ref_resolve.4:4'], cost=K * P, tiers=('quick', 'thorough') if (K, P) == (2, 5) else ('thorough',), functions=PTRFN, timeout=1800)
+for K in (2, 3):
+    for shape in range(6):
+        QM(('C15', 'C07'), 'ptr.build.K%d.S%d' % (K, shape), 'harness/pointer.c', defs=['-DK=%d' % K, '-DMODE=1', '-DSHAPE=%d' % shape], unwind=14, link=['cJSON.c'],
+           unwindset=ML(K * K + K + 3, 50) + ['strcmp.0:4', 'cJSONUtils_FindPointerFromObjectTo:2', 'vf_memcpy.0:16', 'strlen.0:14', 'strcat.0:14', 'vf_sprintf.0:8', 'vf_sprintf.1:14', 'vf_sprintf.2:8', 'vf_sprintf.3:8'], cost=K * 20,
+           tiers=('quick', 'thorough') if K == 2 else ('thorough',), functions=PTRFN, timeout=1800)
